@@ -13,8 +13,8 @@ SDIM = {1: 3, 2: 4, 3: 6}
 
 # metric -> tolerance (see the module docstring; measured clean maxima in the comments of checks/meta/C22.json)
 TOL = {
-    "vdiff": 1e-10, "ndiff": 1e-9, "nfd": 1e-6, "dfd": 1e-5, "homog": 1e-9, "iso": 1e-9,
-    "fdf": 1e-6, "ndf": 1e-5, "pdiff": 1e-10, "ho2": 1e-11, "bh": 1e-11,
+    "vdiff": 1e-10, "ndiff": 1e-9, "nfd": 1e-5, "dfd": 1e-4, "homog": 1e-9, "iso": 1e-9,
+    "fdf": 1e-5, "ndf": 1e-4, "pdiff": 1e-10, "ho2": 1e-11, "bh": 1e-11,
     "hq": 1e-12, "hsym": 1e-14, "hmk": 1e-14, "hconv": 1e-14,
 }
 # looser bounds where the clean code itself is less accurate (documented reason)
@@ -47,14 +47,19 @@ def rnd_stress(rng, N, scale=1.):
     return [x * scale for x in from_principal(rng, N, sp)]
 
 
-def coalescing_stress(rng, N, which):
+def coalescing_stress(rng, N, which, rotated=True):
     a, b = rng.uniform(0.5, 2.), rng.uniform(-2., -0.5)
+    if rng.random() < 0.5:
+        a, b = b, a
     sp = {0: [a, a, b], 1: [a, b, a], 2: [b, a, a]}[which]
     if N == 2:
         # only the two in-plane values can be rotated into each other
         return [a, a, b, 0.]
     if N == 1:
         return sp
+    if not rotated:
+        # diagonal tensor: the eigen-solver returns the values in storage order, which selects the branch
+        return sp + [0., 0., 0.]
     return from_principal(rng, N, sp)
 
 
@@ -108,6 +113,9 @@ def cases(rng, quick):
             for _ in range(1 if quick else 4):
                 add("hosford", N, [rng.choice([6., 8.])], coalescing_stress(rng, N, which), ":eq")
                 add("barlat", N, [1.] * 18 + [rng.choice([6., 8.])], coalescing_stress(rng, N, which), ":unit:eq")
+                if N == 3:
+                    add("hosford", N, [rng.choice([6., 8.])], coalescing_stress(rng, N, which, False), ":eqd")
+                    add("barlat", N, [1.] * 18 + [rng.choice([6., 8.])], coalescing_stress(rng, N, which, False), ":unit:eqd")
     return out
 
 
